@@ -37,3 +37,25 @@ FUNCTIONS = [T + "GroupSpecificTerm.eval_new_data"]
 
 ASSUMPTIONS = ['scipy.linalg.khatri_rao assumed: K[i*p+k, c] = A[i, c] * B[k, c]; numpy: any(axis=1), ~, column_stack, zeros, mask assignment, .T',
                'expr.eval_new_data / factor.eval_new_data are pure functions of the term and the frame (their own contracts are variable_c / bounded)']
+
+# ---- Term identity (C02): the ordered duplicate-free factor list -----------------------------
+REG.declare_class(T + "Term", {"components": "list[any]", "data": "any", "kind": "str?", "name": "str"})
+REG.contract(T + "Term.__init__", params={"components": "list[any]"}, tags=["C02"],
+             modifies=["self.components", "self.data", "self.kind", "self.name"],
+             ensures=[  # no factor twice, every given factor kept, nothing invented
+                 "forall(0, len(self.components), lambda a: forall(0, len(self.components), lambda b: "
+                 "implies(a != b, self.components[a] != self.components[b])))",
+                 "forall(0, len(components), lambda k: components[k] in self.components)",
+                 "forall(0, len(self.components), lambda a: self.components[a] in components)"],
+             loops={1: Loop(invariant=[
+                 "0 <= _i1", "_i1 <= len(components)",
+                 "forall(0, len(self.components), lambda a: forall(0, len(self.components), lambda b: "
+                 "implies(a != b, self.components[a] != self.components[b])))",
+                 "forall(0, _i1, lambda k: components[k] in self.components)",
+                 "forall(0, len(self.components), lambda a: exists(0, _i1, lambda k: self.components[a] == components[k]))"],
+                 modifies=["self.components"])})
+REG.contract(T + "Term.__eq__", params={"other": T + "Term"}, returns="bool", tags=["C02"],
+             ensures=["result == (self.components == other.components)"])
+
+FUNCTIONS += [T + "Term.__init__", T + "Term.__eq__"]
+ASSUMPTIONS += ["components (Variable / Call objects) are opaque values compared with ==; their __eq__/__hash__ are not verified here"]
